@@ -1398,7 +1398,7 @@ func (c *Cluster) pin(
 	}
 
 	// Handle pin updates when the option is set
-	if update := pin.PinUpdate; update != cid.Undef && !update.Equals(pin.Cid) {
+	if update := pin.PinUpdate; update != cid.Undef && !update.Equals(pin.Cid) && len(blacklist) == 0 {
 		pin, err := c.PinUpdate(ctx, update, pin.Cid, pin.PinOptions)
 		return pin, true, err
 	}
